@@ -200,7 +200,7 @@ class C16Check:
     property_id = "C16"
     name = "c16-run-sim"
     level = "exploration"
-    rule = ("each run = one generated contract with 1-2 check functions, each a decision tree of depth 3-4 over three arguments with "
+    rule = ("(20 % of the functions are exclusion chains - an unsatisfiable leaf needing 22-45 conditions, so that the solver wraps the unsat core over several lines - and 20 % are id-recycling templates: vm.assume on a taken branch, unsatisfiable leaf, then sibling paths creating conditions that did not exist before) each run = one generated contract with 1-2 check functions, each a decision tree of depth 3-4 over three arguments with "
             "predicates drawn from a pool containing solver-only contradictions (so unsatisfiable assertion-failing paths with unsat cores "
             "of many shapes share prefixes with satisfiable ones), run by run_contract under the simulator with --cache-solver, branching "
             "`unknown` for every branching query (so infeasible paths survive identically in both twins), 1-4 solver threads, seeded solver latencies (they decide when a core becomes visible), gc.collect() "
